@@ -494,26 +494,7 @@ Fixpoint exec (fuel : nat) (st : store) (sc : scopes) (i : instr) {struct fuel} 
                   | r => r
                   end
               end
-          | USum =>
-              (* the reducer is chosen by the run-time type of the iterator among those the
-                 static type of the operand admits (all three when it admits none) *)
-              let t := as_type v in
-              let s := sty x in
-              let ti := TFun [] (TTup [TBool; TInt]) in
-              let tf := TFun [] (TTup [TBool; TFloat]) in
-              let ts := TFun [] (TTup [TBool; TString]) in
-              let any := matches ti s || matches tf s || matches ts s in
-              let choose := fun c => matches t c && (negb any || matches c s) in
-              if choose ti then call (p_int_sum pre) [v] st sc
-              else if choose tf then call (p_float_sum pre) [v] st sc
-              else call (p_string_sum pre) [v] st sc
-          | UProduct =>
-              let t := as_type v in
-              let s := sty x in
-              let ti := TFun [] (TTup [TBool; TInt]) in
-              let tf := TFun [] (TTup [TBool; TFloat]) in
-              if matches t ti && (matches ti s || negb (matches tf s)) then call (p_int_product pre) [v] st sc
-              else call (p_float_product pre) [v] st sc
+          | USum | UProduct   (* planted as reducer calls by the checker: unreachable!() *)
           | UAll | UAny | UBitAnd | UBitOr => (st, sc, SPanic)
           end)
     end
